@@ -303,7 +303,7 @@ func init() {
 		}
 	}
 	// batch with the queue closed mid-batch (rejected items) or purged while pending
-	for _, kp := range []kindPair{{ResW, Fifo}, {ErrW, Prio}, {Plain, Fifo}, {ResW, Prio}} {
+	for _, kp := range memKinds() {
 		kp := kp
 		Register(&Scenario{
 			Name:  name("batch-qclose/%s", kp),
